@@ -55,6 +55,12 @@ Theorem C21_collection_o2m_copy : forall evs1 db evs2,
 Proof. exact collection_o2m_copy. Qed.
 Print Assumptions C21_collection_o2m_copy.
 
+(* With the proposed repair (proposed_fixes/C21-db-reverse-remove-phantom.diff: the bad event raises) the collection statement
+   holds for every relation kind and every history. *)
+Theorem C21_collection_fixed : forall m2m evs, all_same (cobs (crun_fixed m2m cinit evs)).
+Proof. exact collection_fixed. Qed.
+Print Assumptions C21_collection_fixed.
+
 (* Non-vacuity: a read, an external change of that column arriving with a re-fetch: the run fails; without the read it
    does not and the new value is seen. *)
 Example C21_nonvacuous_fail : outcome [false] [Load 0 (Some 1); Read 0 None; Load 0 (Some 2); Read 0 None] = (true, [TObs 0 (Some 1)]).
